@@ -310,6 +310,30 @@ pub fn drive_c01(out: &mut dyn std::io::Write, seed: u64, thorough: bool) {
                 }
             }
         }
+        // (ii-c) structured keys and nonces: equal key halves, one repeated byte, bytes with the top bit set, zero stretches
+        // inside the nonce (each 4-byte nonce word zero in turn)
+        {
+            let half = rng.bytes(16);
+            let mut k_eq = half.clone();
+            k_eq.extend_from_slice(&half);
+            let r = rng.bytes(32);
+            let mut kn: Vec<(Vec<u8>, Vec<u8>)> = vec![
+                (k_eq, rng.bytes(nl)),
+                (vec![0x61u8; 32], rng.bytes(nl)),
+                (r.iter().map(|b| b | 0x80).collect(), rng.bytes(nl).iter().map(|b| b | 0x80).collect()),
+                (r.clone(), vec![0x80u8; nl]),
+            ];
+            for w in 0..nl / 4 {
+                let mut n = rng.bytes(nl).iter().map(|b| b | 1).collect::<Vec<u8>>();
+                for x in n[4 * w..4 * w + 4].iter_mut() {
+                    *x = 0;
+                }
+                kn.push((r.clone(), n));
+            }
+            for (i, (k, n)) in kn.iter().enumerate() {
+                ks_event(out, variant, k, n, [0u64, 37, 64, 300][i % 4], &vec![0u8; 70 + 67 * (i % 3)], "structured");
+            }
+        }
         // (iii) all-ones key and nonce (carries everywhere)
         ks_event(out, variant, &vec![0xffu8; 32], &vec![0xffu8; nl], 3, &vec![0u8; 130], "ones");
     }
